@@ -175,13 +175,15 @@ static void check_targets(unsigned id, struct mattr *a, struct hwloc_location *q
   }
 }
 
-static void check_initiators(unsigned id, struct mattr *a, struct mtgt *g)
+/* phase: 1 = enumerate, 2 = best initiator, 4 = get_value; the caller varies which query comes first after a modification,
+ * because each entry point has to refresh stale caches by itself */
+static void check_initiators(unsigned id, struct mattr *a, struct mtgt *g, unsigned phase)
 {
   hwloc_obj_t node = node_by_gp(g->gp);
   if (!node) { hv_viol("model.target_missing", "model target gp%llu is not in the topology", (unsigned long long)g->gp); return; }
   unsigned nw = NEEDI(a) ? g->ni : 0;
   unsigned sizes[4] = { 0, nw, nw + 2, nw > 1 ? nw - 1 : 0 };
-  for (unsigned s = 0; s < 4 && !hv_viol_count(); s++) {
+  for (unsigned s = 0; s < 4 && !hv_viol_count() && (phase & 1); s++) {
     unsigned nr = sizes[s]; struct hwloc_location *locs = calloc(nr + 1, sizeof *locs); uint64_t *vals = calloc(nr + 1, sizeof *vals);
     for (unsigned i = 0; i < nr; i++) locs[i].type = (enum hwloc_location_type_e)77;
     errno = 0;
@@ -208,8 +210,10 @@ static void check_initiators(unsigned id, struct mattr *a, struct mtgt *g)
   }
   if (hv_viol_count()) return;
   /* best initiator */
+  int rc = 0;
+  if (phase & 2) {
   struct hwloc_location bl; uint64_t bv = 0; errno = 0;
-  int rc = hwloc_memattr_get_best_initiator(T, id, node, 0, &bl, &bv);
+  rc = hwloc_memattr_get_best_initiator(T, id, node, 0, &bl, &bv);
   hv_stat("queries.get_best_initiator", 1);
   if (!NEEDI(a)) { if (rc != -1 || errno != EINVAL) hv_viol("best_initiator.no_initiator_attr", "get_best_initiator on %s (no initiators) returned %d errno %d", a->name, rc, errno); }
   else if (!g->ni) { if (rc != -1 || errno != ENOENT) hv_viol("best_initiator.not_enoent", "get_best_initiator(%s) without entries returned %d errno %d", a->name, rc, errno); }
@@ -222,6 +226,8 @@ static void check_initiators(unsigned id, struct mattr *a, struct mtgt *g)
     if (!ok || bv != opt) { char ls[200]; loc_str(&bl, ls, sizeof ls); hv_viol("best_initiator.not_optimal", "get_best_initiator(%s %s, node gp%llu) returned %s value %llu, the optimum over %u entries is %llu", a->name, HIGHER(a) ? "higher-first" : "lower-first", (unsigned long long)g->gp, ls, (unsigned long long)bv, g->ni, (unsigned long long)opt); }
     hv_stat("best_initiator.optimal", 1);
   }
+  }
+  if (!(phase & 4)) return;
   /* get_value for every stored entry: exact location, a sub-cpuset, and a non-matching one */
   for (unsigned k = 0; k < g->ni && !hv_viol_count(); k++) {
     struct mini *m = &g->ini[k]; struct hwloc_location q; hwloc_bitmap_t tmp = NULL;
@@ -314,6 +320,12 @@ static void check_model(const char *after)
     hwloc_memattr_id_t id = (hwloc_memattr_id_t)-1; const char *nm = NULL; unsigned long fl = 0;
     if (hwloc_memattr_get_by_name(T, a->name, &id) != 0) { hv_viol("attr.lost", "attribute \"%s\" is no longer known after %s", a->name, after); break; }
     if (hwloc_memattr_get_name(T, id, &nm) != 0 || strcmp(nm, a->name) || hwloc_memattr_get_flags(T, id, &fl) != 0 || fl != a->flags) { hv_viol("attr.name_flags", "attribute \"%s\": name/flags differ (flags %#lx, model %#lx)", a->name, fl, a->flags); break; }
+    if (!a->conv && a->nt) {   /* which entry point is the first to see the attribute after the last modification */
+      struct mtgt *g0 = &a->tg[hv_below(&R, a->nt)]; unsigned first = (unsigned)hv_below(&R, 4);
+      if (first) check_initiators(id, a, g0, first == 1 ? 2u : first == 2 ? 4u : 1u);
+      hv_stat(first == 0 ? "first_query.get_targets" : first == 1 ? "first_query.get_best_initiator" : first == 2 ? "first_query.get_value" : "first_query.get_initiators", 1);
+      if (hv_viol_count()) break;
+    }
     check_targets(id, a, NULL);
     if (a->conv) {
       hwloc_obj_t n = hwloc_get_obj_by_type(T, HWLOC_OBJ_NUMANODE, (unsigned)hv_below(&R, (uint64_t)hwloc_get_nbobjs_by_type(T, HWLOC_OBJ_NUMANODE)));
@@ -323,7 +335,7 @@ static void check_model(const char *after)
       hv_stat("queries.convenience", 1);
       continue;
     }
-    for (unsigned t = 0; t < a->nt && !hv_viol_count(); t++) check_initiators(id, a, &a->tg[t]);
+    for (unsigned t = 0; t < a->nt && !hv_viol_count(); t++) check_initiators(id, a, &a->tg[t], 7);
     /* a NUMA node that is not a target */
     if (!hv_viol_count()) for (hwloc_obj_t n = hwloc_get_next_obj_by_type(T, HWLOC_OBJ_NUMANODE, NULL); n; n = hwloc_get_next_obj_by_type(T, HWLOC_OBJ_NUMANODE, n)) if (!model_target(a, n->gp_index)) {
       uint64_t v; struct hwloc_location q; q.type = HWLOC_LOCATION_TYPE_OBJECT; q.location.object = n; errno = 0;
